@@ -32,8 +32,11 @@ pub enum Entry {
     FromRefStr,
     DeJson,
     DeMsgPack,
+    /// the value an existing valid newtype holds after `deserialize_in_place` with the start input's document
+    /// (whether that call succeeded or failed)
+    DeInPlace,
 }
-const ENTRIES: [Entry; 7] = [Entry::TryNew, Entry::TryFromOwned, Entry::TryFromStr, Entry::FromStr, Entry::FromRefStr, Entry::DeJson, Entry::DeMsgPack];
+const ENTRIES: [Entry; 8] = [Entry::TryNew, Entry::TryFromOwned, Entry::TryFromStr, Entry::FromStr, Entry::FromRefStr, Entry::DeJson, Entry::DeMsgPack, Entry::DeInPlace];
 
 #[derive(Clone, Debug)]
 pub struct Chain<I> {
@@ -107,6 +110,10 @@ pub fn check<I: Inputs>(vt: &'static Vt<I>, ctx: &Ctx) -> DeclReport {
                     _ => None,
                 }
             }
+            Entry::DeInPlace => match (vt.de_in_place, crate::props::c04::valid_start(vt), enc(Fmt::Json, &c.start)) {
+                (Some(dip), Some(base), Ok(doc)) => dip(base, Fmt::Json, &doc).map(|(_ok, after)| after),
+                _ => None,
+            },
             _ => None,
         })
         .ok()
@@ -217,6 +224,7 @@ pub fn check<I: Inputs>(vt: &'static Vt<I>, ctx: &Ctx) -> DeclReport {
             Entry::FromRefStr => vt.from_str_ref.is_some(),
             Entry::FromStr => vt.from_str.is_some() || vt.from_str_s.is_some(),
             Entry::DeJson | Entry::DeMsgPack => vt.de.is_some(),
+            Entry::DeInPlace => vt.de_in_place.is_some(),
         })
         .collect();
     for (i, s) in starts.iter().enumerate() {
